@@ -1,5 +1,6 @@
 import OrsoVerif.Generated.Arrow
 import OrsoVerif.Generated.ArrowExpr
+import OrsoVerif.Model.Frame
 /-!
 # C11 — Arrow interchange
 
@@ -179,8 +180,11 @@ def ColTable.numRows (t : ColTable α) : Nat :=
 /-- The rows of a column table (`df.itertuples`). -/
 def ColTable.rows (t : ColTable α) : List (List α) := transposeN t.numRows t.cols
 
-/-- `DataFrame.head(size)` = `slice(0, size)` (dataframe.py:143,243-251) for `size ≥ 0`. -/
-def head (size : Nat) (rows : List (List α)) : List (List α) := rows.take size
+/-- `DataFrame.head(size)` for `size ≥ 0` (dataframe.py `head`, `slice`): the model of `slice` C03
+uses (`Model/Frame.lean`), assembled from the window arithmetic *generated* from the source
+(`Gen.Frame.headOffset/headLength/sliceNegTest/sliceStop/sliceZeroTest`).  That this is the first
+`size` rows is `C11.head_glue_spec`. -/
+def head (size : Nat) (rows : List (List α)) : List (List α) := Frame.head rows size
 
 /-- converters.py:81-82: the argument `head` is called with, if it is called: the *generated*
 guard (`size is not None and size >= 0`) and argument (`size`). -/
@@ -194,10 +198,10 @@ def limited (rows : List (List α)) (size : Option Int) : List (List α) :=
   | some k => head k rows
   | none => rows
 
-/-- converters.py:75-89. -/
+/-- converters.py:75-89.  The branch test is the *generated* one (`dataset.rowcount == 0`). -/
 def toArrow (names : List String) (rows : List (List α)) (size : Option Int) : ColTable α :=
   let rows := limited rows size
-  if rows.length = 0 then { names := names, cols := List.replicate names.length [] }
+  if Gen.ArrowExpr.toArrowEmptyTest (rows.length : Int) then { names := names, cols := List.replicate names.length [] }
   else { names := names, cols := transposeN names.length rows }
 
 /-- `DataFrame.from_arrow(df.arrow(size))`: the rows that come back. -/
